@@ -258,7 +258,7 @@ theorem contract_needed :
 
 /-- **times_strictly_increasing_on_grid**: in every state of a contract-honouring run (in particular the final one)
 `results.time` is strictly increasing, is exactly the list of accepted step times filtered by the report grid
-(every accepted step for 'ALL'), the node lists and the link lists have one entry per reported time (so the two
+(every accepted step for 'ALL'; the grid is `report_start + k·report_timestep`, `k ≥ 0`), the node lists and the link lists have one entry per reported time (so the two
 families of tables share the index), and 'Simulation already solved this timestep' is never raised. -/
 theorem times_strictly_increasing_on_grid {simTime prevTime : Int} (w : W) (hS : Start cfg simTime prevTime)
     (hC : Contract wd cfg (enter cfg w simTime prevTime)) (n : Nat) :
@@ -266,7 +266,7 @@ theorem times_strictly_increasing_on_grid {simTime prevTime : Int} (w : W) (hS :
     s.times.Pairwise (· < ·) ∧
     s.accepted.Pairwise (· < ·) ∧
     s.times = s.accepted.filter (reportNow cfg) ∧
-    (cfg.report ≠ 0 → ∀ t ∈ s.times, t % cfg.report = 0) ∧
+    (cfg.report ≠ 0 → ∀ t ∈ s.times, cfg.reportStart ≤ t ∧ (t - cfg.reportStart) % cfg.report = 0) ∧
     (cfg.report = 0 → s.times = s.accepted) ∧
     s.nodeRows.length = s.times.length ∧ s.linkRows.length = s.times.length ∧
     s.halt ≠ some .raiseAlreadySolved := by
@@ -276,10 +276,10 @@ theorem times_strictly_increasing_on_grid {simTime prevTime : Int} (w : W) (hS :
   · intro hr t ht
     have h1 : t ∈ s.accepted.filter (reportNow cfg) := l.times_eq ▸ ht
     have h2 := (List.mem_filter.1 h1).2
-    simp only [reportNow, Bool.or_eq_true, beq_iff_eq] at h2
+    simp only [reportNow, Bool.or_eq_true, beq_iff_eq, Bool.and_eq_true, decide_eq_true_eq] at h2
     rcases h2 with h2 | h2
     · exact absurd h2 hr
-    · exact h2
+    · exact ⟨h2.1, h2.2⟩
   · intro hr
     have h1 := l.times_eq
     have : ∀ t, reportNow cfg t = true := by intro t; simp [reportNow, hr]
@@ -597,6 +597,12 @@ example : ∀ n, n ≤ 22 → PresolveOK traceWorld
   revert hn s
   revert n
   decide
+
+/-- `report_start = 3`, report step 2, hydraulic step 1: the grid is 3, 5, 7, ...; `report_start` beyond the duration: empty tables -/
+example : ((runSim traceWorld { exCfg with hyd := 1, reportStart := 3 } ⟨[], [], [], 0, 0⟩ 0 0).times,
+           (runSim traceWorld { exCfg with reportStart := 7 } ⟨[], [], [], 0, 0⟩ 0 0).times,
+           (runSim traceWorld { exCfg with reportStart := 7 } ⟨[], [], [], 0, 0⟩ 0 0).halt) =
+    ([3, 5], [], some .finished) := by decide
 
 /-- a continued run that starts beyond the duration: no solver call, empty tables (the trace is not touched) -/
 example : ((runSim traceWorld exCfg ⟨[8], [.singular], [true], 0, 0⟩ 8 6).halt,
